@@ -35,7 +35,7 @@ pub fn check(input: &Vec<u8>, obs: &mut Obs) -> Result<(), Fail> {
     // half of the cases are built right after a related build on the same thread (the input extended by a character of
     // a wider / the same class, the input without its last character, same length with other content, same input under
     // other options): the mode must be decided from the bytes of THIS input alone
-    bc.pred = [0u8, 0, 0, 0, 2, 2, 6, 4, 3, 5, 1, 2][(crate::engine::hash_bytes(input) % 12) as usize];
+    bc.pred = [0u8, 0, 0, 0, 2, 7, 6, 4, 3, 5, 1, 2][(crate::engine::hash_bytes(input) % 12) as usize];
     if bc.pred != 0 {
         obs.label("after_related_build");
     }
